@@ -1,3 +1,11 @@
 import ZnVerif.Properties.C18Lines
 open ZnVerif.Properties.C18Lines
 #print axioms lines_table_partial
+#print axioms lines_table
+#print axioms lines_table_full_holds
+#print axioms lines_table_any_fuel
+#print axioms parse_line_records_lines
+#print axioms comment_scanner_records_lines
+#print axioms string_scanner_records_lines
+#print axioms next_token_keeps_lines
+#print axioms invariant_at_end
